@@ -126,7 +126,12 @@ func C02(tier string) int {
 			}
 		}
 		ops2 = append(ops2, SOp{Kind: "att", Ents: []Ent{{Key: k, S: 0, T: 1, Root: 1}}}, SOp{Kind: "att", Ents: []Ent{{Key: k, S: 1, T: 2, Root: 2}}})
+		// The same proposals served while the store refuses writes.
+		for _, slot := range []uint64{0, 1} {
+			ops2 = append(ops2, SOp{Kind: "prop", Fault: "write", Ents: []Ent{{Key: k, Slot: slot, Root: 1}}})
+		}
 	}
+	InstallSigFaults()
 	st2 := newStats()
 	r2, err := bfs.Explore(bfs.Config[SOp]{NewWorker: mk([]int{0, 1}), Ops: withRestart(ops2), MaxDepth: depth2 + 1, Budget: budget, OnViolation: onViol, OnTransition: st2.onTransition})
 	if err != nil {
